@@ -1,6 +1,7 @@
 """C04: generated Go source for the composed optics of one shape (Join to depth 3, BiMap with an involution,
 BiMapS/B/I/F, Getter, Setter, Iso, Morphism over lists with nils and repeats, NewLensM)."""
 import json
+import random
 import re
 
 XORABLE = {"int8", "uint8", "int16", "uint16", "int32", "uint32", "float32", "int64", "uint64", "int", "uint", "float64",
@@ -10,6 +11,11 @@ AUTO = {  # BiMapX[S, A, B]: field type A -> (constructor, B)
     "int64": ("BiMapI", "MyInt"), "MyInt": ("BiMapI", "int64"), "int8": ("BiMapI", "MyI8"), "MyI16": ("BiMapI", "int16"),
     "float64": ("BiMapF", "MyF"), "MyF": ("BiMapF", "float64"),
 }
+# BiMapI[S, A, B] ACROSS WIDTHS: the constraint optics.Int is a union of types of different sizes, so B(a) / A(b) are
+# conversions by value (sign extension / truncation), mutually inverse on the values of the narrower type only.
+# Signed integer types of the shapes -> bytes.  (BiMapF float32 <-> float64 is not generated: its conversion is not
+# a function the byte model has.)
+WIDTH = {"int8": 1, "MyI8": 1, "int16": 2, "MyI16": 2, "int32": 4, "myLow": 4, "int64": 8, "int": 8, "MyInt": 8}
 
 
 def key_of(f):
@@ -77,9 +83,10 @@ def go_combos(rng, spec, L_unused):
     out = ["func combos%s() []combo {" % T, "\tcs := []combo{}"]
 
     def add_lens(kind, req, tynames, B, expr):
-        out.append("\tcs = append(cs, lensCombo(%s, obj{\"optic\": %s, \"kind\": %s, \"B\": %s, \"outer_path\": %s}, %s, tyOf[%s](), func() any { return %s }))"
+        # vbits: the values put through the lens are drawn from the signed integers of that many bits (0: any value of B)
+        out.append("\tcs = append(cs, lensCombo(%s, obj{\"optic\": %s, \"kind\": %s, \"B\": %s, \"outer_path\": %s, \"vbits\": %d}, %s, tyOf[%s](), func() any { return %s }))"
                    % (json.dumps(kind), go_obj(req["optic"]), json.dumps(req["kind"]), json.dumps(B), go_obj(req.get("outer_path", [])),
-                      tys_go(tynames + [B]), B, expr))
+                      req.get("vbits", 0), tys_go(tynames + [B]), B, expr))
 
     top = listing_of(spec, T)
     inline = [e for e in top if e["inline"]]
@@ -120,7 +127,7 @@ def go_combos(rng, spec, L_unused):
         if e["type"] in XORABLE and e["type"] not in local and n < 4:
             n += 1
             A = e["type"]
-            o = {"o": "conv", "x": leaf_json(l, e["path"]), "code": 1, "fpath": e["path"]}
+            o = {"o": "conv", "x": leaf_json(l, e["path"]), "code": 1, "B": A, "fpath": e["path"]}
             which = n % 3
             if which == 0:
                 add_lens("bimap", {"optic": dict(o, o="bimap"), "kind": "lens"}, [T, A], A,
@@ -135,9 +142,38 @@ def go_combos(rng, spec, L_unused):
             fn, B = AUTO[e["type"]]
             if B in local:
                 B = "pkg" + B
-            o = {"o": "bimap", "x": leaf_json(l, e["path"]), "code": 0, "fpath": e["path"]}
+            o = {"o": "bimap", "x": leaf_json(l, e["path"]), "code": 0, "B": B, "fpath": e["path"]}
             add_lens(fn.lower(), {"optic": o, "kind": "lens"}, [T, e["type"], B], B,
                      "optics.%s[%s, %s, %s](%s)" % (fn, T, e["type"], B, ", ".join(json.dumps(a) for a in l["attr"])))
+    # ---- everything below draws from a stream of its own (a function of the shape): the requests above stay what they were
+    xr = random.Random("c04x/" + json.dumps(spec, sort_keys=True))
+
+    def pkg(t):
+        return "pkg" + t if t in local else t
+
+    def bimapi(e, l, B):
+        """BiMapI[T, A, B] on the field e of type A: (optic, Go expression)"""
+        o = {"o": "bimap", "x": leaf_json(l, e["path"]), "code": 0 if WIDTH[e["type"]] == WIDTH[B] else 2, "B": pkg(B), "fpath": e["path"]}
+        return o, "optics.BiMapI[%s, %s, %s](%s)" % (T, e["type"], pkg(B), ", ".join(json.dumps(a) for a in l["attr"]))
+    # ---- BiMapI across widths: a narrow field exposed as a wider type and a wide field exposed as a narrower one; the
+    #      values put are those of the narrower type (negative ones included: sign extension), on which the conversions
+    #      are mutually inverse
+    ints = [e for e in cands if e["type"] in WIDTH and e["type"] not in local]
+    xr.shuffle(ints)
+    want = ["wider", "narrower"]
+    for e in ints:
+        if not want:
+            break
+        A = e["type"]
+        for w in list(want):
+            Bs = sorted(b for b in WIDTH if (WIDTH[b] > WIDTH[A]) == (w == "wider") and WIDTH[b] != WIDTH[A])
+            if not Bs:
+                continue
+            want.remove(w)
+            l = leaf_for(spec, T, e, xr)
+            B = xr.choice(Bs)
+            o, expr = bimapi(e, l, B)
+            add_lens("bimapi-width", {"optic": o, "kind": "lens", "vbits": 8 * min(WIDTH[A], WIDTH[B])}, [T, A, pkg(B)], pkg(B), expr)
     # ---- Iso / Morphism between two instances of the shape
     leaves = [(e, leaf_for(spec, T, e, rng)) for e in inline]
     leaves = [(e, l) for e, l in leaves if l is not None]
@@ -168,6 +204,74 @@ def go_combos(rng, spec, L_unused):
             kind = "morphism"
         out.append("\tcs = append(cs, isoCombo(%s, obj{\"isos\": %s}, %s, func() any { return %s }))"
                    % (json.dumps(kind), go_obj(isos), tys_go(names), expr))
+    # ---- Morphism lists in which an iso over a COMPOSED lens (BiMap, BiMapS/B/I/F, Getter, Setter: their values carry
+    #      func fields) occurs twice - adjacent and not, with nil and plain entries in between.  Every entry is bound to
+    #      a variable, so a repeated entry is the same iso value.
+    by_value = {}     # value type X -> lenses Lens[T, X]: (optic, Go expression, composed?)
+
+    def offer(X, o, expr, composed):
+        by_value.setdefault(X, []).append((o, expr, composed))
+    for e, l in leaves:
+        A = e["type"]
+        offer(A, leaf_json(l, e["path"]), leaf_go(l), False)
+        if A in local:
+            continue
+        if A in XORABLE:
+            o = {"x": leaf_json(l, e["path"]), "code": 1, "B": A, "fpath": e["path"]}
+            offer(A, dict(o, o="bimap"), "optics.BiMap(%s, xorBytes[%s], xorBytes[%s])" % (leaf_go(l), A, A), True)
+            offer(A, dict(o, o="getter"), "optics.Getter(%s, xorBytes[%s])" % (leaf_go(l), A), True)
+            offer(A, dict(o, o="setter"), "optics.Setter(%s, xorBytes[%s])" % (leaf_go(l), A), True)
+        if A in AUTO:
+            fn, B = AUTO[A]
+            o = {"o": "bimap", "x": leaf_json(l, e["path"]), "code": 0, "B": pkg(B), "fpath": e["path"]}
+            offer(pkg(B), o, "optics.%s[%s, %s, %s](%s)" % (fn, T, A, pkg(B), ", ".join(json.dumps(a) for a in l["attr"])), True)
+        if A in WIDTH:
+            for B in xr.sample(sorted(b for b in WIDTH if WIDTH[b] != WIDTH[A]), 2):
+                o, expr = bimapi(e, l, B)
+                offer(pkg(B), o, expr, True)
+
+    def disjoint(p, q):
+        n = min(len(p), len(q))
+        return p[:n] != q[:n]
+
+    def draw_iso(composed, avoid=()):
+        """an iso (sa, ta) over one value type; composed: at least one side is a composed lens; its target lies off `avoid`"""
+        for _ in range(40):
+            X = xr.choice(sorted(by_value))
+            sa, ta = xr.choice(by_value[X]), xr.choice(by_value[X])
+            if composed != (sa[2] or ta[2]):
+                continue
+            if composed and sa[0]["o"] == "setter" and ta[0]["o"] == "getter" and xr.random() < 0.8:
+                continue    # copies nothing forward
+            if all(disjoint(ta[0]["fpath"], p) for p in avoid):
+                return {"sa": sa[0], "ta": ta[0]}, "optics.Iso(%s, %s)" % (sa[1], ta[1])
+        return None
+    NIL = (None, "optics.Isomorphism[%s, %s](nil)" % (T, T))
+    for k in range(2):
+        X = draw_iso(True)
+        if X is None:
+            break
+        tx = [X[0]["ta"]["fpath"]]
+        P = draw_iso(False, tx) or NIL
+        Y = draw_iso(True, tx) or X
+        form = [[X, X], [X, NIL, X], [X, P, X], [NIL, X, NIL, NIL, X], [X, Y, X, Y], [P, X, X, NIL], [X, NIL, P, Y, NIL, X]]
+        entries = xr.choice(form[2:] if k else form[:4])
+        var, binds, args = {}, [], []
+        for it in entries:
+            if it[0] is None:
+                args.append(it[1])
+                continue
+            if it[1] not in var:
+                var[it[1]] = "x%d" % len(var)
+                binds.append("%s := %s" % (var[it[1]], it[1]))
+            args.append(var[it[1]])
+        isos = [it[0] for it in entries]
+        names = [T]
+        for i in isos:
+            for o in (i["sa"], i["ta"]) if i else ():
+                names += [o["A"]] if o["o"] == "field" else [o["x"]["A"], o["B"]]
+        out.append("\tcs = append(cs, isoCombo(\"morphism\", obj{\"isos\": %s}, %s, func() any { %s; return optics.Morphism[%s, %s](%s) }))"
+                   % (go_obj(isos), tys_go(names), "; ".join(binds), T, T, ", ".join(args)))
     if T == "K0":
         for k in range(6):
             init = {rng.choice(["a", "b", "c", "k", ""]): rng.randint(-5, 5) for _ in range(rng.randint(0, 4))}
